@@ -620,6 +620,45 @@ func TestC13(t *testing.T) {
 		j := cjobs[ci]
 		R.Sample(fmt.Sprintf("commands: n=%d records -> files %v encodings %v: report json/text/%s/hdrplot + encode gob/csv/json vs single file", j.n, j.a, j.e, c13HistType))
 	}
+	// a large set in which every failed hit has an error text of its own (ephemeral ports, request ids):
+	// whatever the split, the report lists the same error set and the same counts
+	{
+		const big = 1500
+		rs := make([]vegeta.Result, big)
+		t0 := time.Date(2024, 3, 1, 12, 0, 0, 0, time.UTC)
+		for i := range rs {
+			rs[i] = vegeta.Result{Attack: "many", Seq: uint64(i), Code: 0, Timestamp: t0.Add(time.Duration(i) * time.Millisecond), Latency: time.Duration(1+i%7) * time.Millisecond,
+				Error: fmt.Sprintf("dial tcp 10.0.0.1:80: connect from 10.0.0.2:%d: connection refused", 20000+i), Method: "GET", URL: "http://many/"}
+		}
+		write := func(name, enc string, part []vegeta.Result) string {
+			f := filepath.Join(dir, name)
+			os.WriteFile(f, cresEncode(enc, part), 0o644)
+			return f
+		}
+		union := c13RunCommands(R, dir, "many-union", []string{write("many-union.gob", encodingGob, rs)}, big)
+		for si, cuts := range [][]int{{900}, {700, 800}, {1}, {750}} {
+			var files []string
+			prev := 0
+			for k, c := range append(append([]int(nil), cuts...), big) {
+				files = append(files, write(fmt.Sprintf("many-%d-%d", si, k), c13Encs[(si+k)%len(c13Encs)], rs[prev:c]))
+				prev = c
+			}
+			o := c13RunCommands(R, dir, fmt.Sprintf("many-split-%d", si), files, big)
+			R.Eval(1)
+			R.Distinct(fmt.Sprint("many", si))
+			if o.json != nil && union.json != nil {
+				if bad := c13DiffJSON(union.json, o.json); len(bad) > 0 {
+					R.Violation("cmd:report-json:differs-from-single-file:"+strings.Join(bad, "+")+":many-distinct-errors", map[string]any{"results": big, "split_at": cuts, "fields": bad})
+				}
+			}
+			if es, ok := union.json["errors"].([]string); ok && len(es) != big && si == 0 {
+				R.Violation("cmd:report-json:error-set-incomplete:many-distinct-errors", map[string]any{"results": big, "distinct_error_texts": big, "listed": len(es)})
+			}
+			for _, f := range files {
+				os.Remove(f)
+			}
+		}
+	}
 	R.Finish(t)
 }
 
